@@ -9,7 +9,7 @@ from engine.flow import enum_paths, path_calls, path_facts, path_stmts
 from engine.mutate import Mutant
 from engine.report import Result
 from engine.symb import Expander
-from rules.ufunc import ARR, UfuncAnchors, registry, rule_type
+from rules.ufunc import ARR, UfuncAnchors, dot_method_units, out_target_scaled, registry, rule_type
 from spec import ufunc_signatures as SPEC
 
 TECHNIQUE = "typed table check of _ufunc_registry against ufunc homogeneity signatures (unit rules interpreted as monomials) plus path rules in __array_ufunc__: rescale direction, coefficient application, reduce/trig/power gates"
@@ -38,7 +38,31 @@ def check(repo: Repo) -> Result:
     reductions(repo, res, anchors)
     trig(repo, res, anchors)
     power_gate(repo, res, anchors)
+    common_unit(repo, res, anchors)
+    r7 = res.rule("C04-R7", "ndarray.dot override: result and out= carry the full product of the operands' units", floor=3)
+    for key, ok, where, msg, exp, found in dot_method_units(repo):
+        res.check(ok, key, where, msg, exp, found, rid=r7)
     return res
+
+
+def common_unit(repo, res, a: UfuncAnchors):
+    """C04-R8: remainder-like and floor-dividing ufuncs are evaluated with both operands in one unit."""
+    r8 = res.rule("C04-R8", "binary ufuncs that are not jointly homogeneous (remainders, floor division, divmod) see commensurable operands in one unit", floor=5)
+    reg = registry(repo)
+    for name in sorted(SPEC.NEEDS_COMMON_UNIT):
+        if name not in reg:
+            raise AnalysisError(f"ufunc {name} is not in _ufunc_registry")
+        rule, gate = reg[name]
+        # accepted alternative: the branch rescales the second operand explicitly for this ufunc
+        explicit = False
+        for n in ast.walk(ast.Module(body=a.binary, type_ignores=[])):
+            if isinstance(n, ast.If) and any(isinstance(x, ast.Name) and x.id in (name, name + "_") for x in ast.walk(n.test)):
+                if any(isinstance(st, ast.Assign) and norm(st.targets[0]) == "inp1" for st in ast.walk(n)):
+                    explicit = True
+        res.check(rule in a.checked or explicit, f"{name}:rescaled", f"{ARR} _ufunc_registry[{name}] -> {rule}", f"np.{name} is not homogeneous in its operands jointly, but its unit rule {rule} is not among the rules whose second operand is rescaled into the first operand's unit before evaluation {sorted(a.checked)}: for commensurable operands in different units the numbers are computed on mismatched scales and a scale factor is applied afterwards (1 km // 300 m gives 0 instead of 3)", "rule in the rescaled set", rule, rid=r8)
+    if "divmod" in reg:
+        rt = rule_type(repo, reg["divmod"][0])
+        res.check(False if set(rt.kinds) == {"U1"} else True, "divmod:quotient-unit", f"{ARR} _ufunc_registry[divmod] -> {reg['divmod'][0]}", f"divmod returns (quotient, remainder) of type {SPEC.DIVMOD_OUTPUTS}; the single rule {reg['divmod'][0]} labels both outputs with the first operand's unit, so the quotient of 7 m by 2 m comes back as 3 m", str(SPEC.DIVMOD_OUTPUTS), sorted(rt.kinds), rid=r8)
 
 
 def signatures(repo, res):
@@ -153,18 +177,9 @@ def coefficient(repo, res, a: UfuncAnchors):
             break
     else:
         res.check(nret > 0, "exits", fn.where(), "every exit applies the coefficient", rid=r3)
-    # out= is scaled as well
-    found = False
-    for p in enum_paths(post, limit=20000):
-        facts = dict((t, tr) for t, tr, _ in path_facts(p))
-        if facts.get("out is not None") is True and facts.get("mul != 1") is True:
-            calls = [norm(c) for c in path_calls(p)]
-            if "multiply(out, mul, out=out)" not in calls:
-                res.bad("out-scaled", fn.where(), "out= target is not multiplied by the simplification coefficient", rid=r3)
-                break
-            found = True
-    else:
-        res.check(found, "out-scaled", fn.where(), "out= target is multiplied by the coefficient when it is not 1", rid=r3)
+    # out= is scaled as well (typestate along every path through the wrap-up block; rules/ufunc.py)
+    ok, where, conds = out_target_scaled(a)
+    res.check(ok, "out-scaled", where, "on a path where out= is given and the simplification coefficient differs from 1 the out target is never multiplied by it: the caller's buffer keeps the unscaled numbers while the returned value is scaled", "multiply(out, mul, out=out) on every such path", conds, path=conds, rid=r3)
     # `mul` definitions come from the unit rule
     defs = []
     for n in ast.walk(fn.node):
@@ -209,25 +224,40 @@ def reductions(repo, res, a: UfuncAnchors):
     pf = mod.func("_apply_power_mapping")
     res.fn(pf)
     ufunc, in_unit, in_size, in_shape, kw = pf.params
+    # which axis value does the function use?  kw.get("axis", D) (directly or through a local): D is what an
+    # absent keyword means, and ufunc.reduce reduces over axis 0 when no axis is given (NumPy: "axis=0").
+    gets = [c for c in ast.walk(pf.node) if isinstance(c, ast.Call) and isinstance(c.func, ast.Attribute) and c.func.attr == "get" and norm(c.func.value) == kw and c.args and isinstance(c.args[0], ast.Constant) and c.args[0].value == "axis"]
+    subs = [n for n in ast.walk(pf.node) if isinstance(n, ast.Subscript) and norm(n.value) == kw and isinstance(n.slice, ast.Constant) and n.slice.value == "axis"]
+    if not gets:
+        raise AnalysisError(f"{pf.where()}: lookup of the axis keyword not found")
+    defaults = {norm(c.args[1]) if len(c.args) > 1 else "None" for c in gets}
+    res.check(defaults == {"0"}, "default-axis", pf.where(gets[0]), "ufunc.reduce without an axis argument reduces over axis 0 (not over all elements): np.multiply.reduce(a) of a 2-d array multiplies shape[0] factors, so treating an absent axis like axis=None attaches unit**size", "kwargs.get('axis', 0)", sorted(defaults), rid=r4)
     ok = True
     found = []
+    n_axis = n_all = 0
     for p in enum_paths(pf.body):
-        facts = dict((t, tr) for t, tr, _ in path_facts(p))
         end = p[-1]
-        ex = Expander(pf)
         unit_def = None
+        local = {}
         for ev in p:
-            if ev[0] == "stmt" and isinstance(ev[1], ast.Assign) and norm(ev[1].targets[0]) == "unit":
-                unit_def = norm(ev[1].value)
+            if ev[0] == "stmt" and isinstance(ev[1], ast.Assign) and isinstance(ev[1].targets[0], ast.Name):
+                local[ev[1].targets[0].id] = norm(ev[1].value)
+                if ev[1].targets[0].id == "unit":
+                    unit_def = norm(ev[1].value)
         found.append(unit_def)
-        axis_given = facts.get(f"{kw}.get('axis', None) is not None")
-        if axis_given:
-            ok &= unit_def == f"{in_unit} ** power_map({in_shape}[{kw}['axis']])"
+        facts = [(t, tr) for t, tr, _ in path_facts(p)]
+        axis_names = {k for k, v in local.items() if any(v == norm(g) for g in gets)} | {norm(g) for g in gets} | {norm(x) for x in subs}
+        known_axis = any((t in {f"{a_} is not None" for a_ in axis_names} and tr) or (t in {f"{a_} is None" for a_ in axis_names} and not tr) for t, tr in facts)
+        pm = ("power_map(", ")")
+        if known_axis:
+            n_axis += 1
+            ok &= unit_def is not None and any(unit_def.replace("(", "").replace(")", "") == f"{in_unit} ** power_map{in_shape}[{a_}]".replace("(", "").replace(")", "") for a_ in axis_names)
         else:
-            ok &= unit_def == f"{in_unit} ** power_map({in_size})"
+            n_all += 1
+            ok &= unit_def is not None and unit_def.replace("(", "").replace(")", "") == f"{in_unit} ** power_map{in_size}"
         ok &= end[0] == "return" and norm(end[1].value) == "(mul, unit)"
-    ok &= any(norm(s) == f"power_map = POWER_MAPPING[{ufunc}]" for s in pf.body)
-    res.check(ok, "exponent", pf.where(), "the exponent is the number of reduced elements (axis length, or size without axis) mapped through POWER_MAPPING[ufunc]", found=found, rid=r4)
+    ok &= any(norm(s) == f"power_map = POWER_MAPPING[{ufunc}]" for s in pf.body) and n_axis >= 1 and n_all >= 1
+    res.check(ok, "exponent", pf.where(), "the exponent is the number of reduced elements (length of the reduced axis, or size for axis=None) mapped through POWER_MAPPING[ufunc]", found=found, rid=r4)
 
 
 def trig(repo, res, a: UfuncAnchors):
